@@ -152,6 +152,10 @@ def body_m(h):
     yd = [h.int('yd%d' % i, 48, 57) for i in range(h.params['ny'])]
     ysign = h.params['ysign']
     text = list(pre) + [77] + ([rel] if rel else []) + xd + [44] + ([ysign] if ysign else []) + yd
+    follow = h.params.get('follow', False)
+    if follow:
+        # a second, plain move after the M command: the B / N prefixes must not leak into it
+        text += [82, 53]          # R5
     res = h.call(g._draw, _bytes(h, text))
     x = 0
     for d in xd:
@@ -172,6 +176,14 @@ def body_m(h):
     else:
         x1, y1 = x, y
     cur = g._draw_current
+    if follow:
+        sx, sy = (x0, y0) if back else (x1, y1)
+        ex = sx + _scaled(scale, 5)
+        h.require('second-move-from-pen', s_and(cur[0] == ex, cur[1] == sy))
+        nl = 1 if blank else 2
+        h.require('second-move-drawn', len(g.lines) == nl and s_and(
+            g.lines[-1][0] == sx, g.lines[-1][1] == sy, g.lines[-1][2] == ex, g.lines[-1][3] == sy))
+        return ['ok', list(cur), g.lines]
     if back:
         h.require('n-returns-to-start', s_and(cur[0] == x0, cur[1] == y0))
     else:
@@ -223,6 +235,11 @@ def cases(tier):
                 cs.append(Case('m-%s%s-y%s' % (''.join(chr(c) for c in pre), {0: 'abs', 43: 'plus', 45: 'minus'}[rel],
                                                'neg' if ysign else 'pos'), body_m,
                                params={'rel': rel, 'prefix': pre, 'ysign': ysign, 'nx': 2, 'ny': 1}))
+                if not ysign:
+                    cs.append(Case('m-%s%s-then-move' % (''.join(chr(c) for c in pre),
+                                                         {0: 'abs', 43: 'plus', 45: 'minus'}[rel]), body_m,
+                                   params={'rel': rel, 'prefix': pre, 'ysign': 0, 'nx': 1, 'ny': 1,
+                                           'follow': True}))
     for L in range(0, (4 if tier == 'thorough' else 3) + 1):
         cs.append(Case('free-%d' % L, body_free, params={'len': L}, max_paths=400000, timeout_s=3000))
     return cs
